@@ -58,6 +58,10 @@ structure Defects where
   /-- `node.rs:951`: a synchronised deletion record deletes `WHERE room_id = ? AND id = ?`: a version of the
       row that lives in another room stays -/
   syncDeletionRoomScoped : Bool
+  /-- `daily_log.rs:592-633`: `RoomDefinitionLog::get` joins the room with the log rows of its last day — one per
+      entity — and reads the first only: when that entity's last history and daily hashes agree nothing else
+      of the room is compared -/
+  summaryFirstEntityOnly : Bool
 deriving Repr, DecidableEq
 
 def Defects.asImplemented : Defects :=
@@ -65,14 +69,14 @@ def Defects.asImplemented : Defects :=
     refDeletionUnmarked := true, syncDeletionLocalDayUnmarked := true, ingestIgnoresTombstones := true,
     rightDependsOnLocalAuthor := true, edgesOnlyForFetchedRows := true, syncDeletionKeepsEdges := true,
     deletionBatchKeyedById := true, lazyScan := true,
-    syncDeletionRoomScoped := true }
+    syncDeletionRoomScoped := true, summaryFirstEntityOnly := true }
 
 def Defects.none : Defects :=
   { historySeedDropped := false, entityNotCompared := false, emptyDayRow := false, oldDayUnmarked := false,
     refDeletionUnmarked := false, syncDeletionLocalDayUnmarked := false, ingestIgnoresTombstones := false,
     rightDependsOnLocalAuthor := false, edgesOnlyForFetchedRows := false, syncDeletionKeepsEdges := false,
     deletionBatchKeyedById := false, lazyScan := false,
-    syncDeletionRoomScoped := false }
+    syncDeletionRoomScoped := false, summaryFirstEntityOnly := false }
 
 inductive Hash where
   | daily (sigs : List Sig)
